@@ -13,6 +13,7 @@ Does not decide: the sign convention, idempotence, effect on areas and intersect
 import ast
 
 import astq
+import ordeval
 from effects import effects
 from units import Interp, Vals, Tup, Q, Off, OffC, ArrowArr, Obj, Arr
 from model import walk_own, AnalysisError, full as norm
@@ -37,71 +38,128 @@ def _flip_table(P, R, op):
     for s_ in walk_own(op.node):
         if isinstance(s_, ast.Assign) and isinstance(s_.targets[0], ast.Subscript) and norm(s_.value) == 'True' and isinstance(s_.targets[0].value, ast.Name):
             exp_name = s_.targets[0].value.id
+    NAN = float('nan')
 
     class Unsupported(Exception):
         pass
 
-    def elem_def(name):
-        """per-ring definition of array `name`: the value stored at `name[i] = <expr>` inside a loop"""
-        st = [x for x in walk_own(op.node) if isinstance(x, ast.Assign) and isinstance(x.targets[0], ast.Subscript) and isinstance(x.targets[0].value, ast.Name)
+    def elem_defs(fn, name):
+        """per-ring definitions of array `name` in fn: values stored at `name[i] = <expr>` (and whether every ring is stored)"""
+        st = [x for x in walk_own(fn.node) if isinstance(x, ast.Assign) and isinstance(x.targets[0], ast.Subscript) and isinstance(x.targets[0].value, ast.Name)
               and x.targets[0].value.id == name and norm(x.value) != 'True']
-        return st[0].value if len(st) == 1 else None
+        return st
 
-    def ev(e, sign, exp, depth=0):
-        if depth > 8:
+    def ev(fn, e, sign, exp, ch, depth=0):
+        """value of expression e of function fn for ONE ring whose signed area has the given sign (-1/0/+1) and whose expected direction is exp;
+        ch() decides the outcome of tests that the sign does not determine (tolerances)."""
+        if depth > 10:
             raise Unsupported('depth')
         if isinstance(e, ast.Constant) and isinstance(e.value, (int, float, bool)):
             return e.value
+        if isinstance(e, ast.Attribute) and norm(e) in ('np.nan', 'numpy.nan', 'math.nan'):
+            return NAN
         if isinstance(e, ast.Name):
-            if e.id == exp_name:
+            if fn is op and e.id == exp_name:
                 return exp
-            d = elem_def(e.id)
-            if d is not None:
-                return ev(d, sign, exp, depth + 1)
-            g_, dd = astq.unique_def(op, e.id)
-            if isinstance(dd, ast.AST):
-                return ev(dd, sign, exp, depth + 1)
+            st = elem_defs(fn, e.id)
+            if len(st) == 1:
+                guarded = any(isinstance(p_, ast.If) for p_ in _parents(st[0], fn.node))
+                if guarded and ch():
+                    skipped.append(e.id)
+                    # the ring was not stored: it keeps the prefill of the array
+                    g_, dd = astq.unique_def(fn, e.id)
+                    if isinstance(dd, ast.Call) and norm(dd.func).split('.')[-1] in ('full', 'zeros', 'empty') :
+                        return ev(fn, dd.args[1], sign, exp, ch, depth + 1) if norm(dd.func).endswith('full') and len(dd.args) > 1 else 0.0
+                    raise Unsupported('prefill of ' + e.id)
+                return ev(fn, st[0].value, sign, exp, ch, depth + 1)
+            if len(st) > 1:
+                raise Unsupported('several stores into ' + e.id)
+            g_, dd = astq.unique_def(fn, e.id)
+            if isinstance(dd, ast.AST) and g_ is fn:
+                return ev(fn, dd, sign, exp, ch, depth + 1)
             raise Unsupported(e.id)
         if isinstance(e, ast.Call):
-            r_ = P.resolve_call(op, e)
+            r_ = P.resolve_call(fn, e)
             if r_ and r_[0] == 'func' and r_[1].name == 'compute_area':
                 return float(sign)              # any representative of the sign class: only comparisons with 0 may look at it
+            if r_ and r_[0] == 'func':
+                h = r_[1]                       # a repository helper returning one value per ring: follow its returned array
+                rets = [x for x in walk_own(h.node) if isinstance(x, ast.Return) and x.value is not None]
+                if len(rets) == 1:
+                    return ev(h, rets[0].value, sign, exp, ch, depth + 1)
+                raise Unsupported(h.name)
             fn_ = norm(e.func).split('.')[-1]
             if fn_ in ('logical_and', 'logical_or', 'logical_xor', 'not_equal', 'equal') and len(e.args) == 2:
-                a_, b_ = ev(e.args[0], sign, exp, depth + 1), ev(e.args[1], sign, exp, depth + 1)
+                a_, b_ = ev(fn, e.args[0], sign, exp, ch, depth + 1), ev(fn, e.args[1], sign, exp, ch, depth + 1)
                 return {'logical_and': bool(a_) and bool(b_), 'logical_or': bool(a_) or bool(b_), 'logical_xor': bool(a_) != bool(b_), 'not_equal': a_ != b_, 'equal': a_ == b_}[fn_]
             if fn_ == 'logical_not' and len(e.args) == 1:
-                return not ev(e.args[0], sign, exp, depth + 1)
+                return not ev(fn, e.args[0], sign, exp, ch, depth + 1)
             if fn_ == 'sign' and len(e.args) == 1:
-                v_ = ev(e.args[0], sign, exp, depth + 1)
+                v_ = ev(fn, e.args[0], sign, exp, ch, depth + 1)
                 return (v_ > 0) - (v_ < 0)
+            if fn_ in ('isnan',) and len(e.args) == 1:
+                v_ = ev(fn, e.args[0], sign, exp, ch, depth + 1)
+                return isinstance(v_, float) and v_ != v_
+            if fn_ in ('isfinite',) and len(e.args) == 1:
+                v_ = ev(fn, e.args[0], sign, exp, ch, depth + 1)
+                return not (isinstance(v_, float) and v_ != v_)
+            if fn_ in ('isclose', 'allclose') and len(e.args) >= 2:
+                v_ = ev(fn, e.args[0], sign, exp, ch, depth + 1)
+                w_ = ev(fn, e.args[1], sign, exp, ch, depth + 1)
+                if w_ == 0 and isinstance(v_, float):
+                    if v_ != v_:
+                        return False
+                    return True if v_ == 0 else ch()      # a non-zero area may or may not be within the tolerance
+                raise Unsupported('isclose')
+            if fn_ in ('abs', 'fabs', 'absolute') and len(e.args) == 1:
+                v_ = ev(fn, e.args[0], sign, exp, ch, depth + 1)
+                return abs(v_)
+            if fn_ in ('zeros', 'full', 'empty', 'zeros_like', 'empty_like', 'full_like'):
+                raise Unsupported('array as a whole')
             raise Unsupported(norm(e.func))
         if isinstance(e, ast.Compare) and len(e.ops) == 1:
-            a_, b_ = ev(e.left, sign, exp, depth + 1), ev(e.comparators[0], sign, exp, depth + 1)
+            a_, b_ = ev(fn, e.left, sign, exp, ch, depth + 1), ev(fn, e.comparators[0], sign, exp, ch, depth + 1)
             o_ = type(e.ops[0])
-            if isinstance(a_, float) and not isinstance(a_, bool) and not (isinstance(b_, (int, float)) and b_ == 0) and not isinstance(b_, bool):
-                raise Unsupported('area compared with a non-zero value')
+            fa, fb = isinstance(a_, float) and not isinstance(a_, bool), isinstance(b_, float) and not isinstance(b_, bool)
+            if (fa and isinstance(b_, (int, float)) and not isinstance(b_, bool) and b_ != 0 and a_ == a_) or (fb and isinstance(a_, (int, float)) and not isinstance(a_, bool) and a_ != 0 and b_ == b_):
+                # area against a non-zero threshold: decided by the sign only when the signs differ (or the area is 0)
+                area_v, thr, area_left = (a_, b_, True) if fa else (b_, a_, False)
+                if area_v == 0 or (area_v > 0) != (thr > 0):
+                    pass
+                else:
+                    return ch()
             return {ast.Lt: a_ < b_, ast.LtE: a_ <= b_, ast.Gt: a_ > b_, ast.GtE: a_ >= b_, ast.Eq: a_ == b_, ast.NotEq: a_ != b_}[o_]
         if isinstance(e, ast.BinOp) and isinstance(e.op, (ast.BitAnd, ast.BitOr, ast.BitXor)):
-            a_, b_ = bool(ev(e.left, sign, exp, depth + 1)), bool(ev(e.right, sign, exp, depth + 1))
+            a_, b_ = bool(ev(fn, e.left, sign, exp, ch, depth + 1)), bool(ev(fn, e.right, sign, exp, ch, depth + 1))
             return a_ and b_ if isinstance(e.op, ast.BitAnd) else (a_ or b_ if isinstance(e.op, ast.BitOr) else a_ != b_)
         if isinstance(e, ast.BoolOp):
-            vs = [bool(ev(v, sign, exp, depth + 1)) for v in e.values]
+            vs = [bool(ev(fn, v, sign, exp, ch, depth + 1)) for v in e.values]
             return all(vs) if isinstance(e.op, ast.And) else any(vs)
         if isinstance(e, ast.UnaryOp) and isinstance(e.op, (ast.Invert, ast.Not)):
-            return not bool(ev(e.operand, sign, exp, depth + 1))
+            return not bool(ev(fn, e.operand, sign, exp, ch, depth + 1))
+        if isinstance(e, ast.UnaryOp) and isinstance(e.op, ast.USub):
+            return -ev(fn, e.operand, sign, exp, ch, depth + 1)
         if isinstance(e, ast.Subscript):
-            return ev(e.value, sign, exp, depth + 1)
+            return ev(fn, e.value, sign, exp, ch, depth + 1)
         raise Unsupported(type(e).__name__)
 
     wrong = []
+    ncase = 0
+    skipped = []
     try:
         for sign in (-1, 0, 1):
             for exp in (True, False):
-                got = bool(ev(decision, sign, exp))
-                want = False if sign == 0 else ((sign > 0) != exp)
-                if got != want:
-                    wrong.append({'area_sign': sign, 'expected_ccw': exp, 'flips': got, 'wanted': want})
+                def world(ch, sign=sign, exp=exp):
+                    del skipped[:]
+                    v_ = bool(ev(op, decision, sign, exp, ch))
+                    return v_, bool(skipped)
+                for script, (got, skip) in ordeval.explore(world, max_worlds=64):
+                    if skip and sign != 0:
+                        continue        # "this ring was not stored by the guarded loop although it has area": not known to be feasible -- undecided, not reported
+                    ncase += 1
+                    want = False if sign == 0 else ((sign > 0) != exp)
+                    if got != want:
+                        wrong.append({'area_sign': sign, 'expected_ccw': exp, 'flips': got, 'wanted': want, 'undetermined_tests': list(script)})
     except Unsupported as e:
         R.abstain('C15.f', op, decision, f'flip decision uses a construct the table evaluator does not model ({e})', construct='flip decision table')
         return
@@ -110,11 +168,23 @@ def _flip_table(P, R, op):
         msg = ''
     elif zero and len(zero) == len(wrong):
         msg = f'a ring with zero area is flipped when expected_ccw={zero[0]["expected_ccw"]}: it has no orientation, so every call reverses it again and oriented() is not idempotent'
+    elif not zero and all(w['wanted'] and not w['flips'] for w in wrong):
+        msg = (f'a ring with non-zero area that runs the wrong way is left as it is in {len(wrong)} case(s), e.g. {wrong[0]}: the decision depends on more than the sign of the area '
+               '(a tolerance, a vertex count), so small or short rings keep the wrong direction')
     else:
-        msg = f'flip decision is wrong on {len(wrong)} of 6 (area sign, expected direction) cases, e.g. {wrong[0]}'
+        msg = f'flip decision is wrong on {len(wrong)} of {ncase} (area sign, expected direction) cases, e.g. {wrong[0]}'
     R.check(not wrong, 'C15.f', op, decision, 'flip decision table: a ring with area is flipped iff it runs against its expected direction; a ring without area is never flipped (idempotence)',
             msg, construct='flip decision table', values=wrong[:6])
-    R.count('flip_table_cases', 6)
+    R.count('flip_table_cases', ncase)
+
+
+def _parents(node, stop):
+    out = []
+    p_ = getattr(node, '_parent', None)
+    while p_ is not None and p_ is not stop:
+        out.append(p_)
+        p_ = getattr(p_, '_parent', None)
+    return out
 
 
 def run(P, R, tier):
